@@ -630,6 +630,9 @@ def run(ctx):
     n3, f3 = orphan_probes(stg)
     total += n3
     failures += f3
+    n4, f4 = prefix_probes(stg)
+    total += n4
+    failures += f4
     ctx.obligations += 2
     reported = 0
     kf = json.load(open(os.path.join(common.VERIF, "known_findings.json")))
@@ -734,6 +737,45 @@ def orphan_probes(stg):
             if probs:
                 fails.append({"obligation": "direct-oracle:C17:orphan", "kind": kind, "argv": argv, "exit": p.returncode,
                               "problems": probs, "stderr": p.stderr[-300:]})
+    return n, fails
+
+
+def prefix_probes(stg):
+    """branches whose names share a prefix (`feat` / `feat2` / `feat/x`-style neighbours cannot coexist,
+    so: `pre` and `prefix`, `a.b` and `a.bc`): cleanup / delete / rename of the shorter one leaves every
+    ref and config entry of the longer one alone"""
+    import random
+    fails = []
+    n = 0
+    for short, long_ in (("pre", "prefix"), ("a.b", "a.bc"), ("x", "x-1")):
+        for kind in ("cleanup", "delete", "rename", "clone-delete"):
+            with repo.Scratch("c17x") as r:
+                r.init_repo()
+                r.stg(stg, ["init"])
+                log = []
+                make_branch(r, stg, random.Random(7), short, 2, log)
+                make_branch(r, stg, random.Random(8), long_, 3, log)
+                r.git(["checkout", "-q", "main"])
+                before = snapshot(r)
+                argvs = {"cleanup": [["branch", "--cleanup", "--force", short]],
+                         "delete": [["branch", "--delete", "--force", short]],
+                         "rename": [["branch", "--rename", short, "moved"]],
+                         "clone-delete": [["branch", short], ["branch", "--clone", "copy"], ["branch", "main"],
+                                          ["branch", "--delete", "--force", "copy"]]}[kind]
+                for argv in argvs:
+                    p = r.stg(stg, argv)
+                after = snapshot(r)
+                n += 1
+                probs = []
+                if refs_of_branch(before["refs"], long_) != refs_of_branch(after["refs"], long_):
+                    probs.append("refs of %r changed" % long_)
+                if cfg_of_branch(before["cfg"], long_) != cfg_of_branch(after["cfg"], long_):
+                    probs.append("config of %r changed" % long_)
+                if before["stacks"].get(long_) != after["stacks"].get(long_):
+                    probs.append("stack of %r changed" % long_)
+                if probs:
+                    fails.append({"obligation": "direct-oracle:C17:prefix", "kind": kind, "argv": argvs, "short": short,
+                                  "long": long_, "exit": p.returncode, "problems": probs, "stderr": p.stderr[-300:]})
     return n, fails
 
 
